@@ -280,6 +280,7 @@ static void v2_suite() {
     VCHECK(a.at(0) == ax && a.at(1) == ay, "vector2:at", d);
     VCHECK(!(a < a), "vector2:less-irreflexive", d);
     VCHECK((!a) == (ax == 0 && ay == 0), "vector2:not", d);
+    { V2 t2 = a; t2 += t2; VCHECK(t2.x == 2 * ax && t2.y == 2 * ay, "vector2:add-assign-aliased", d); t2 = a; t2 -= t2; VCHECK(t2.x == 0 && t2.y == 0, "vector2:sub-assign-aliased", d); }
     VCHECK(V2::dimensions() == 2, "vector2:dimensions", d);
   }
 }
@@ -334,6 +335,8 @@ static void v3_suite() {
     VCHECK(a.at(0) == ax && a.at(1) == ay && a.at(2) == az, "vector3:at", d);
     VCHECK(!(a < a), "vector3:less-irreflexive", d);
     VCHECK((!a) == (ax == 0 && ay == 0 && az == 0), "vector3:not", d);
+    { V3 t3 = a; t3 += t3; VCHECK(t3.x == 2 * ax && t3.y == 2 * ay && t3.z == 2 * az, "vector3:add-assign-aliased", d); t3 = a; t3 -= t3; VCHECK(t3.x == 0 && t3.y == 0 && t3.z == 0, "vector3:sub-assign-aliased", d);
+      V3 cs = a.cross(a); VCHECK(cs.x == 0 && cs.y == 0 && cs.z == 0, "vector3:cross-self", d); }
     V3 fromv2(V2(ax, ay), az);
     VCHECK(fromv2 == a, "vector3:ctor-from-v2", d);
     C->cls(fmt("v3:base:%s%s%s", ax ? "x" : "0", ay ? "y" : "0", az ? "z" : "0"));
@@ -468,6 +471,37 @@ static void matrix_suite(vf::Rng& r) {
     if (!oks) C->violation("matrix4:add-sub", "componentwise +/-", d);
     MI P = A; P *= B;
     if (!(P == AB)) C->violation("matrix4:mul-assign", "*= differs from *", d);
+    // aliased operands: m *= m must equal m * m (an in-place product that reads what it has overwritten is wrong)
+    MI AA = A * A;
+    MI Q = A; Q *= Q;
+    if (!(Q == AA)) C->violation("matrix4:mul-assign-aliased", "m *= m differs from m * m", d);
+    {
+      V4 l2 = Q * v, r2 = A * (A * v);
+      if (!(l2 == r2)) C->violation("matrix4:associativity-aliased", "(A *= A) v != A(Av)", d);
+    }
+    MI R = A; R += R;
+    MI R2 = A + A;
+    if (!(R == R2)) C->violation("matrix4:add-assign-aliased", "m += m differs from m + m", d);
+    R = A; R -= R;
+    bool allzero = true;
+    for (int z = 0; z < 16; z++) allzero &= R.v[z] == 0;
+    if (!allzero) C->violation("matrix4:sub-assign-aliased", "m -= m is not zero", d);
+    // scalar forms
+    {
+      int64_t sc = v.x;
+      MI S1 = A * sc, S2 = A + sc, S3 = A - sc;
+      bool oksc = true;
+      for (int z = 0; z < 16; z++) oksc &= S1.v[z] == A.v[z] * sc && S2.v[z] == A.v[z] + sc && S3.v[z] == A.v[z] - sc;
+      MI T1 = A; T1 *= sc; MI T2b = A; T2b += sc; MI T3 = A; T3 -= sc;
+      oksc &= (T1 == S1) && (T2b == S2) && (T3 == S3);
+      if (sc != 0) {
+        MI S4 = A / sc, S5 = A % sc;
+        for (int z = 0; z < 16; z++) oksc &= S4.v[z] == A.v[z] / sc && S5.v[z] == A.v[z] % sc;
+        MI T4 = A; T4 /= sc; MI T5 = A; T5 %= sc;
+        oksc &= (T4 == S4) && (T5 == S5);
+      }
+      if (!oksc) C->violation("matrix4:scalar-ops", "matrix-scalar operator is not componentwise", d);
+    }
     if ((A == B) != (memcmp(A.v, B.v, sizeof(A.v)) == 0)) C->violation("matrix4:eq", "==", d);
     if ((A != B) == (A == B)) C->violation("matrix4:ne", "!=", d);
     C->cls(fmt("matrix:int:style%d", style));
